@@ -173,8 +173,7 @@ def run(ctx):
                 shapes.append(ast.unparse(c.args[0]) if c.args else "")
     n_calls = len([c for c in calls(fl.node) if ast.unparse(c.func).endswith(".reshape")])
     unr = [c for c in calls(fl.node) if ast.unparse(c.func) == "np.unravel_index"]
-    ctx.expect(len(orders) == 1 and n_calls >= 2 and len(unr) == 1, "R15.3", "WaveSpectrum.flatten[one order]",
-               "coordinates are unravelled and data reshaped with the same (C) memory order", fl.loc(), derived=str(sorted(orders)))
+    ok_order_syntax = len(orders) == 1 and n_calls >= 2 and len(unr) == 1
     # one length: decided on the extracted terms, so the way the locals are computed does not matter
     WSQ = CLS_WS
     itf = spec_interp(p, {WSQ + ".space_time_shape": "stshape", WSQ + ".spectral_shape": "spshape"})
@@ -184,9 +183,17 @@ def run(ctx):
         vals = [T.to_term(v) for v in rf.fields["dataset"].items.values()]
     resh = [x for v in vals for x in T.find_ops(v, "reshape")]
     unrs = [x for v in vals for x in T.find_ops(v, "unravel_index")]
+    # one order, decided on what reaches the result (wherever the index table is built): every reshape and every unravelling
+    # that feeds the flattened dataset carries the same order argument
+    t_orders = {x.args[2] for x in resh if len(x.args) > 2} | {u.args[2] for u in unrs if len(u.args) > 2}
+    ok_order = ok_order_syntax or (len(t_orders) == 1 and len(resh) >= 2 and bool(unrs) and not (orders - {T.show(o) for o in t_orders} - {"'C'"}))
+    ctx.expect(ok_order, "R15.3", "WaveSpectrum.flatten[one order]",
+               "coordinates are unravelled and data reshaped with the same (C) memory order", fl.loc(),
+               derived=str(sorted(orders | {T.show(o) for o in t_orders})))
     firsts = {x.args[1].args[0] for x in resh if isinstance(x.args[1], sp.Tuple) and x.args[1].args}
     oks = len(resh) >= 2 and len(firsts) == 1 and len({u.args[1] for u in unrs}) == 1 and bool(unrs)
     detail = ""
+    Lt_many = None
     if oks:
         Lt = next(iter(firsts))
         St = unrs[0].args[1]
@@ -195,13 +202,16 @@ def run(ctx):
         if S0 and len(single) == 1:
             many = {single[0]: False}
             one = {single[0]: True}
+            # a single spectrum has no space-time dimension to unravel: there the unravel shape is (1,) or not used at all
             oks = T.equivalent(T.assume(Lt, many), op("prod", S0[0], T.NONE_T)) == T.Verdict.EQUAL and T.assume(Lt, one) == 1 \
-                and T.assume(St, many) == S0[0] and T.assume(St, one) == sp.Tuple(sp.Integer(1))
+                and T.assume(St, many) == S0[0] and T.assume(St, one) in (sp.Tuple(sp.Integer(1)), S0[0])
+            if oks:
+                Lt_many = T.assume(Lt, many)
         else:
             oks = S0 and T.equivalent(Lt, op("prod", S0[0], T.NONE_T)) == T.Verdict.EQUAL and St == S0[0]
         idxs = {T.show(u.args[0], 80) for u in unrs}
-        oks = bool(oks) and all(fname(u.args[0]) == "arange" and u.args[0].args[-1] == Lt and (len(u.args[0].args) == 1 or u.args[0].args[0] == 0)
-                                for u in unrs)
+        oks = bool(oks) and all(fname(u.args[0]) == "arange" and u.args[0].args[-1] in (Lt, Lt_many) and (
+            len(u.args[0].args) == 1 or u.args[0].args[0] == 0) for u in unrs)
         detail = f"length {T.show(Lt, 120)}; unravel over {T.show(St, 120)}; indices {sorted(idxs)}"
     ctx.expect(bool(oks), "R15.3", "WaveSpectrum.flatten[one length]",
                "the flattened length is the product of the space-time shape (1 for a single spectrum) for coordinates, spectral and "
